@@ -1042,6 +1042,10 @@ impl C10 {
             for n in &inc_snap.nodes {
                 d.push_str(&format!("{}={}{} ", n.source, n.status, n.error.as_ref().map(|e| format!("[{}]", short(e))).unwrap_or_default()));
             }
+            d.push_str("\nfresh run state: ");
+            for n in &fresh.snap.nodes {
+                d.push_str(&format!("{}={}{} ", n.source, n.status, n.error.as_ref().map(|e| format!("[{}]", short(e))).unwrap_or_default()));
+            }
             d
         };
 
